@@ -794,6 +794,26 @@ def w4(ctx, rep):
 # ---- R5 (C14): no wait without request, no join without spawn (never a hang) --------------------
 
 
+FN_CALLS = ("core::ops::function::FnOnce::call_once", "core::ops::function::FnMut::call_mut", "core::ops::function::Fn::call")
+
+
+def invokes_param(body, param):
+    """every success return of `body` is dominated by a call of its closure parameter `param`"""
+    rem = body.ok_removed()
+    oks = [r for r in body.return_blocks() if r in body.reachable([0], rem)]
+    if not oks:
+        return False
+    for b, t in body.calls():
+        if body.is_cleanup(b) or not t["args"]:
+            continue
+        if (t.get("orig") or t.get("callee") or "") not in FN_CALLS and (t.get("callee") or "") not in FN_CALLS:
+            continue
+        if any(r.kind == "param" and r.what == param and not r.fields for r in trace(body, t["args"][0])):
+            if all(body.dominates(b, r, removed=rem) for r in oks):
+                return True
+    return False
+
+
 def must_started(ctx, body, P, sid, depth=0, seen=None):
     """on every success path to point P of `body`, a start of strand `sid` has happened"""
     m = ctx.model
@@ -849,6 +869,14 @@ def must_started(ctx, body, P, sid, depth=0, seen=None):
                 ok, why = must_started(ctx, ctx.facts.bodies[c], "ret", sid, depth + 1, seen)
                 if ok:
                     return True, "%s via %s at %s" % (why, short(c), t.get("ln"))
+                # a closure handed to the callee, which the callee invokes on every success path
+                for k, a in enumerate(t["args"]):
+                    for r in trace(body, a):
+                        if r.kind == "agg" and r.obj is not None and r.obj.get("ak") == "closure" and r.obj.get("name") in ctx.facts.bodies:
+                            if invokes_param(ctx.facts.bodies[c], k + 1):
+                                ok, why = must_started(ctx, ctx.facts.bodies[r.obj["name"]], "ret", sid, depth + 1, seen)
+                                if ok:
+                                    return True, "%s inside the closure that %s invokes on every success path (%s)" % (why, short(c), t.get("ln"))
     # closures invoked synchronously are not followed; try the callers of this function
     if P != "ret" or depth == 0:
         callers = [x for x in ctx.facts.callers().get(body.id, []) if x[2] in ("call", "candidate")]
